@@ -1,6 +1,7 @@
 package p_pool
 
 import (
+	"errors"
 	"fmt"
 	"sort"
 	"strings"
@@ -16,6 +17,7 @@ import (
 	"github.com/spikeekips/mitum/util"
 	"github.com/spikeekips/mitum/util/encoder"
 	"github.com/spikeekips/mitum/util/valuehash"
+	leveldbStorage "github.com/syndtr/goleveldb/leveldb/storage"
 	"pgregory.net/rapid"
 	"verif/internal/ev"
 )
@@ -156,8 +158,11 @@ type c24World struct {
 	r    *ev.Rec
 	enc  encoder.Encoder
 	encs *encoder.Encoders
+	str  leveldbStorage.Storage // goleveldb's in-memory files; survives Close of st, so that the storage can be opened again
 	st   *leveldbstorage.Storage
 	pool *isaacdatabase.TempPool
+
+	fault *c24Fault // storage write faults (hook H3) of this world's storage
 
 	ballots   map[c24BallotKey]*c24Ballot
 	proposals map[string]*c24Proposal // by fact hash
